@@ -137,9 +137,9 @@ func TestBitCommands(t *testing.T) {
 	c.want(`-"ERR bit offset is not an integer or out of range"`, "SETBIT", "b", "#1", "1")
 	c.want(`-"ERR bit offset is not an integer or out of range"`, "GETBIT", "b", "4294967296")
 	noGaps(t, w)
-	c.want(`-"ERR bit offset is not an integer or out of range"`, "SETBIT", "b", "4294967295", "1") // legal in Redis, too big for the model
-	eq(t, "gap for a huge bitmap", len(w.Gaps), 1)
-	w.Gaps = nil
+	c.want(`:0`, "SETBIT", "big", "4294967295", "1") // the last bit Redis allows: held sparsely (cmd_prob.go)
+	c.want(`:1`, "GETBIT", "big", "4294967295")
+	noGaps(t, w)
 
 	c.want(`+"OK"`, "SET", "s", "foobar")
 	c.want(`:26`, "BITCOUNT", "s")
